@@ -1,10 +1,10 @@
 package govc
 
 import (
-	"math/big"
 	"fmt"
 	"go/types"
 	"math"
+	"math/big"
 	"os"
 
 	"golang.org/x/tools/go/ssa"
